@@ -254,14 +254,14 @@ func errLastFormat(format string) bool { return format != "sam" && format != "sa
 
 func runC18(r *core.Run) {
 	L := core.Pick(r, 5, 6)
-	r.Bound("readers", fmt.Sprintf("Reader of FASTA, FASTQ, SAM, SAM ReaderHeader, BED, Newick x (every input over the format's token alphabet up to length %d + every small and medium corpus file, incl. malformed ones so that stops fall on error items and between the several error items of a SAM file) x every stop position 1..N x {direct call, range+break}", L))
+	r.Bound("readers", fmt.Sprintf("Reader of FASTA, FASTQ, SAM, SAM ReaderHeader, BED, Newick x (every input over the format's token alphabet up to length %d + every small, medium and placeholder-token corpus file, incl. malformed ones so that stops fall on error items and between the several error items of a SAM file) x every stop position 1..N x {direct call, range+break}", L))
 	core.Clause(r, "readers", core.Opts{Rule: "every stop position of every iterator run, both call forms; exactly t callbacks, no panic, items == the first t of the uninterrupted run; for FASTA/FASTQ/BED/Newick an error item is last; non-trivial = uninterrupted run has at least 2 items"},
 		func(emit func(c18Input) bool) {
 			for _, f := range formats {
 				if !enum.Strings(f.Alphabet, L, func(s string) bool { return emit(c18Input{Format: f.Name, Input: core.S(s)}) }) {
 					return
 				}
-				for _, size := range []string{"small", "medium"} {
+				for _, size := range []string{"small", "medium", "vocab"} {
 					for i := range corpus(f.Name, size) {
 						emit(c18Input{Format: f.Name, Corpus: fmt.Sprint(size, "/", i)})
 					}
